@@ -18,6 +18,7 @@ arrivals, any instants, durations, failing runs and same-instant placements; not
 import EdzedModel.OutputAsync
 import EdzedProofs.OutputAsync
 import EdzedProofs.OutputAsyncTie
+import EdzedProofs.OutputBlocksTie
 
 namespace Edzed.OutputAsync
 
@@ -596,6 +597,253 @@ theorem translated_outputasync_wrapper_counts_down_always (c : Cfg) (oc : Outcom
   simp only [M.bind, M.tryFinally, M.pure, ha, hb]
   cases hbody : body j (addOut 1 s) with
   | mk s1 o => cases o <;> rfl
+
+end Edzed.TrTie
+
+/-! ## Tie by translation, second part: constructors, `start`, `OutputFunc`
+
+`Gen/TranslatedOutputBlocks.lean` is regenerated from `_check_arg`, `OutputAsync.__init__ / start /
+init_regular` and `OutputFunc.__init__ / _event_put / init_regular / stop` (incl. the keyword-only defaults of
+the two signatures); the model is `EdzedModel/OutputBlocks.lean`. -/
+
+namespace Edzed.TrTie
+open Edzed.TrTie.OB Edzed.OutputBlocks Edzed.Gen.TrD Edzed.Gen.TrOB
+
+/-- `_check_arg` IS the model's `ArgSpec.ok`: a str, a non-sequence and a sequence with a non-str item raise
+    TypeError, everything else passes; nothing is changed -/
+theorem translated_outputasync_check_arg_is_model (st : Option Int) (name : String) (a : ArgSpec) (s : Attrs) :
+    check_arg (initP0 st) name a s = if a.ok then (s, .next ()) else (s, .raise .argsNotStrings) :=
+  check_arg_model st name a s
+
+/-- the keyword-only parameters of `OutputAsync(…)` and their defaults, from the current signature:
+    `coro`, `mode`, `on_error` are required; f_args defaults to `('value',)`, f_kwargs to `()`, everything
+    else to None -/
+theorem translated_outputasync_init_defaults :
+    oasync_init_defaults =
+      [("coro", "<required>"), ("mode", "<required>"), ("f_args", "('value',)"), ("f_kwargs", "()"),
+       ("guard_time", "None"), ("on_success", "None"), ("on_cancel", "None"), ("on_error", "<required>"),
+       ("stop_data", "None")] := by decide
+
+/-- … and of `OutputFunc(…)` -/
+theorem translated_outputfunc_init_defaults :
+    ofunc_init_defaults =
+      [("func", "<required>"), ("f_args", "('value',)"), ("f_kwargs", "()"), ("on_success", "None"),
+       ("on_error", "<required>"), ("stop_data", "None")] := by decide
+
+/-- **`OutputAsync.__init__` as translated IS the model's `constructAsync`**, for all argument values:
+    what is refused, with which exception and in which order of the checks, and what is stored -/
+theorem translated_outputasync_init_is_model (a : AsyncArgs) :
+    asyncResult (oasync_init (initP a.stopTimeout) a.mode a.fArgs a.fKwargs (guardArg a.guard)
+        a.onSuccess a.onCancel a.onError a.stopData () () {})
+      = constructAsync a :=
+  oasync_init_model a
+
+/-- **`OutputFunc.__init__` as translated IS the model's `constructFunc`** -/
+theorem translated_outputfunc_init_is_model (a : FuncArgs) :
+    funcResult (ofunc_init (initP (if a.superOk then some 0 else none)) a.fArgs a.fKwargs a.onSuccess a.onError
+        a.stopData () () {})
+      = constructFunc a :=
+  ofunc_init_model a
+
+/-- `OutputAsync.start`: `super().start()`, then the queue is created, then -- the queue exists -- the control
+    task of the selected mode; `init_regular` sets the output to 0 (no run is active) -/
+theorem translated_outputasync_start_is_model (st : Option Int) (s : Attrs) :
+    oasync_start (initP st) s
+      = ({ s with started := true, queue := true, ctrlTask := true,
+                  startLog := s.startLog ++ ["super().start", "queue", "control task"] }, .next ()) ∧
+    oasync_init_regular (initP st) s = ({ s with output := some 0 }, .next ()) := by
+  constructor
+  · simp [oasync_start, initP, initP0, M.bind, M.modify, M.pure]
+  · rfl
+
+/-- `OutputFunc.init_regular`: the output of an OutputFunc is False -/
+theorem translated_outputfunc_init_regular_is_model (cfg : FuncCfg) (f : Func) (sd) (log : List FEv) :
+    (ofunc_init_regular (funcP cfg f sd) cfg.fArgs cfg.fKwargs (List.range cfg.nError) (List.range cfg.nSuccess) log).1
+      = initRegular log := rfl
+
+/-- **`OutputFunc._event_put` as translated IS the model's `eventPut`**: the items named by f_args / f_kwargs are
+    taken from the event data (a missing key raises KeyError before anything is called), the function is
+    called with exactly them, an exception is reported to every on_error destination and returned as
+    ('error', exc), a result is reported to every on_success destination and returned as ('result', value) -/
+theorem translated_outputfunc_event_put_is_model (cfg : FuncCfg) (f : Func) (sd) (data : Data) (log : List FEv) :
+    let r := ofunc_event_put (funcP cfg f sd) cfg.fArgs cfg.fKwargs (List.range cfg.nError)
+      (List.range cfg.nSuccess) data log
+    (r.1, funcOut r.2) = ((eventPut cfg f log data).1, some (eventPut cfg f log data).2) := by
+  intro r
+  simp only [r, ofunc_event_put, eventPut, M.bind, getItems_model, getKwItems_model]
+  cases getAll data cfg.fArgs with
+  | error k => simp [funcOut]
+  | ok args =>
+    cases getAllKw data cfg.fKwargs with
+    | error k => simp [funcOut]
+    | ok kwargs =>
+      have hc : (funcP cfg f sd).callFunc args kwargs log =
+          match f args kwargs with
+          | .ok v => (log ++ [.call args kwargs], .next v)
+          | .error e => (log ++ [.call args kwargs], .raise (.user e)) := rfl
+      have hx : ∀ e, (funcP cfg f sd).excIs e "Exception" = true := fun _ => rfl
+      simp only [M.tryExcept, M.bind, hc]
+      cases f args kwargs with
+      | error e => simp [hx, error_loop, M.bind, M.ret, M.pure, funcOut]
+      | ok v => simp [success_loop, M.bind, M.ret, M.pure, funcOut]
+
+/-- **`OutputFunc.stop` IS the model's `stop`**: stop_data, if present, is delivered through `_event_put` -- the
+    last call of the function -- and only then `super().stop()` runs; a KeyError of that delivery propagates
+    (then `super().stop()` is not reached); without stop_data only `super().stop()` happens -/
+theorem translated_outputfunc_stop_is_model (cfg : FuncCfg) (f : Func) (log : List FEv) :
+    let r := ofunc_stop (funcP cfg f (sdRunModel cfg f)) cfg.fArgs cfg.fKwargs (List.range cfg.nError)
+      (List.range cfg.nSuccess) log
+    r.1 = (stop cfg f log).1 ∧
+    (match r.2 with | .raise (.keyError k) => some k | _ => none) = (stop cfg f log).2 := by
+  intro r
+  have hs : ∀ l, (funcP cfg f (sdRunModel cfg f)).superStop l = (l ++ [.superStop], .next ()) := fun _ => rfl
+  have he : (funcP cfg f (sdRunModel cfg f)).eventPutStopData = sdRunModel cfg f := rfl
+  have hh : (funcP cfg f (sdRunModel cfg f)).hasStopData = cfg.stopData.isSome := rfl
+  simp only [r, ofunc_stop, stop, M.bind, hh, he]
+  cases hd : cfg.stopData with
+  | none => simp [hs, M.pure]
+  | some d =>
+    have hsd : ∀ l, sdRunModel cfg f l =
+        match eventPut cfg f l d with
+        | (l', .keyError k) => (l', .raise (.keyError k))
+        | (l', .result v) => (l', .next ("result", .inr v))
+        | (l', .error e) => (l', .next ("error", .inl (.user e))) := by
+      intro l; unfold sdRunModel; rw [hd]; rfl
+    simp only [Option.isSome_some, Bool.not_true, if_true, Bool.false_eq_true, if_false, hsd, M.bind, M.pure]
+    cases hr : eventPut cfg f log d with
+    | mk l res => cases res <;> simp [hs, M.pure]
+
+/-- **`InExecutor.__call__` IS the model's `inExecutorCall`**: a pool is entered, the function runs in it with
+    exactly the given positional and keyword arguments (through `functools.partial` iff there are keyword
+    arguments), the pool is left on every outcome, the result is returned and an exception propagates -/
+theorem translated_outputasync_inexecutor_call_is_model (f : Func) (args : List Val) (kwargs : Data) :
+    let r := inexecutor_call (execP f) args kwargs []
+    r.1 = (inExecutorCall f args kwargs).1 ∧
+    (match r.2 with | .ret v => some (Except.ok v) | .raise e => some (Except.error e) | _ => none)
+      = some (inExecutorCall f args kwargs).2 := by
+  intro r
+  simp only [r, inexecutor_call, inExecutorCall, M.bind, M.tryFinally, execP, M.modify, M.ret]
+  cases kwargs with
+  | nil => cases f args [] <;> simp [M.bind, M.ret]
+  | cons p ps => cases f args (p :: ps) <;> simp [M.bind, M.ret]
+
+/-! ### what follows for the constructors and for OutputFunc (stated on the model the programs were proved equal to) -/
+
+/-- the mode argument: exactly 'cancel', 'wait', 'start' and their first letters are accepted -/
+theorem outputasync_mode_values (m : String) :
+    (modeOf m).isSome = (["c", "cancel", "w", "wait", "s", "start"].contains m) := by
+  unfold modeOf
+  by_cases h1 : (m == "c" || m == "cancel") = true
+  · simp only [h1, if_true]; simp at h1; rcases h1 with h | h <;> simp [h]
+  · by_cases h2 : (m == "w" || m == "wait") = true
+    · simp only [h1, h2, if_true, if_false]; simp at h2; rcases h2 with h | h <;> simp [h]
+    · by_cases h3 : (m == "s" || m == "start") = true
+      · simp only [h1, h2, h3, if_true, if_false]; simp at h3; rcases h3 with h | h <;> simp [h]
+      · simp only [h1, h2, h3, if_false]
+        simp at h1 h2 h3
+        have e1 : (m == "c") = false := by simpa using h1.1
+        have e2 : (m == "cancel") = false := by simpa using h1.2
+        have e3 : (m == "w") = false := by simpa using h2.1
+        have e4 : (m == "wait") = false := by simpa using h2.2
+        have e5 : (m == "s") = false := by simpa using h3.1
+        have e6 : (m == "start") = false := by simpa using h3.2
+        simp [List.contains, List.elem, e1, e2, e3, e4, e5, e6]
+
+/-- whatever is constructed: f_args is a sequence of strs, guard_time is 0 when None was given, never exceeds
+    stop_timeout, and the control task is the one the mode names -/
+theorem outputasync_constructed_is_sane (a : AsyncArgs) (b : AsyncBlk) (h : constructAsync a = .ok b) :
+    b.fArgs.ok = true ∧ (a.guard = .none → b.guard = 0) ∧ b.guard ≤ b.stopTimeout ∧ modeOf a.mode = some b.ctrl := by
+  obtain ⟨mode, fArgs, fKwargs, guard, onS, onC, onE, sd, st⟩ := a
+  unfold constructAsync at h
+  cases hok : fArgs.ok <;> simp only [hok] at h
+  · simp [bind, Except.bind, throw, throwThe, MonadExceptOf.throw] at h
+  · cases hS : onS.count <;> cases hC : onC.count <;> cases hE : onE.count <;>
+      simp [hS, hC, hE, bind, Except.bind, pure, Except.pure] at h
+    cases guard <;> cases hm : modeOf mode <;> cases st <;>
+      simp [hm, bind, Except.bind, pure, Except.pure, throw, throwThe, MonadExceptOf.throw] at h <;>
+      (try split at h) <;> simp_all <;> (try (subst h; simp_all)) <;> omega
+
+/-- a str, a non-sequence or a sequence with a non-str item as f_args is refused by both constructors
+    (TypeError of `_check_arg`), before anything else is looked at -/
+theorem outputblocks_refuse_bad_f_args (a : AsyncArgs) (fa : FuncArgs) :
+    (a.fArgs.ok = false → constructAsync a = .error .argsNotStrings) ∧
+    (fa.fArgs.ok = false → constructFunc fa = .error .argsNotStrings) := by
+  constructor
+  · intro h; unfold constructAsync; simp [h, bind, Except.bind, throw, throwThe, MonadExceptOf.throw]
+  · intro h; unfold constructFunc; simp [h, bind, Except.bind, throw, throwThe, MonadExceptOf.throw]
+
+/-- `OutputFunc` checks f_kwargs as well; `OutputAsync` does not (its second `_check_arg` call passes f_args
+    again -- an observation about the code, outside the property): the same bad f_kwargs … -/
+theorem outputfunc_checks_f_kwargs (fa : FuncArgs) (h1 : fa.fArgs.ok = true) (h2 : fa.fKwargs.ok = false) :
+    constructFunc fa = .error .argsNotStrings := by
+  unfold constructFunc; simp [h1, h2, bind, Except.bind, pure, Except.pure, throw, throwThe, MonadExceptOf.throw]
+
+/-- … is accepted by `OutputAsync(…)` -/
+example : ∃ b, constructAsync { mode := "w", fKwargs := .notSeq, onError := .events 1, stopTimeout := some 10 } = .ok b ∧
+    b.fKwargs = .notSeq := ⟨_, rfl, rfl⟩
+
+/-- with all named items present the function is called exactly once, with the items of f_args in order as
+    positional and those of f_kwargs as keyword arguments -- with the defaults: the single item 'value' -/
+theorem outputfunc_passes_the_named_items (cfg : FuncCfg) (f : Func) (log : List FEv) (data : Data)
+    (args : List Val) (kwargs : Data) (ha : getAll data cfg.fArgs = .ok args) (hk : getAllKw data cfg.fKwargs = .ok kwargs) :
+    ∃ tail, (eventPut cfg f log data).1 = log ++ [.call args kwargs] ++ tail ∧ ∀ e ∈ tail, ∀ a k, e ≠ .call a k := by
+  unfold eventPut
+  simp only [ha, hk]
+  cases f args kwargs with
+  | error e => exact ⟨_, rfl, by intro x hx; simp at hx; obtain ⟨d, _, rfl⟩ := hx; simp⟩
+  | ok v => exact ⟨_, rfl, by intro x hx; simp at hx; obtain ⟨d, _, rfl⟩ := hx; simp⟩
+
+theorem outputfunc_default_passes_value (v : Val) (data : Data) (h : data.get? "value" = some v) :
+    getAll data ["value"] = .ok [v] ∧ getAllKw data [] = .ok [] := by
+  simp [getAll, getAllKw, h]
+
+/-- a missing item: KeyError for the sender, the function is not called, no event is sent -/
+theorem outputfunc_missing_item_calls_nothing (cfg : FuncCfg) (f : Func) (log : List FEv) (data : Data) (k : String)
+    (h : getAll data cfg.fArgs = .error k) : eventPut cfg f log data = (log, .keyError k) := by
+  unfold eventPut; simp [h]
+
+/-- an exception of the function is REPORTED, not raised: every on_error destination gets it (and no on_success
+    event is sent), the event returns ('error', exc); whether the simulation goes on is up to the on_error
+    destinations (`Event.abort()` aborts) -/
+theorem outputfunc_exception_is_reported (cfg : FuncCfg) (f : Func) (log : List FEv) (data : Data)
+    (args : List Val) (kwargs : Data) (e : Nat)
+    (ha : getAll data cfg.fArgs = .ok args) (hk : getAllKw data cfg.fKwargs = .ok kwargs) (hf : f args kwargs = .error e) :
+    eventPut cfg f log data
+      = (log ++ [.call args kwargs] ++ (List.range cfg.nError).map (fun d => .error d e), .error e) := by
+  unfold eventPut; simp [ha, hk, hf]
+
+/-- a result goes to every on_success destination and is returned as ('result', value) -/
+theorem outputfunc_result_is_reported (cfg : FuncCfg) (f : Func) (log : List FEv) (data : Data)
+    (args : List Val) (kwargs : Data) (v : Val)
+    (ha : getAll data cfg.fArgs = .ok args) (hk : getAllKw data cfg.fKwargs = .ok kwargs) (hf : f args kwargs = .ok v) :
+    eventPut cfg f log data
+      = (log ++ [.call args kwargs] ++ (List.range cfg.nSuccess).map (fun d => .success d v), .result v) := by
+  unfold eventPut; simp [ha, hk, hf]
+
+/-- stop_data is delivered by `stop()` as the LAST call of the function: what `stop()` logs is what the event
+    with the stop data logs, followed by `super().stop()` and nothing else -/
+theorem outputfunc_stop_data_is_last_call (cfg : FuncCfg) (f : Func) (log : List FEv) (d : Data)
+    (hd : cfg.stopData = some d) (hk : ∀ k, (eventPut cfg f log d).2 ≠ .keyError k) :
+    (stop cfg f log).1 = (eventPut cfg f log d).1 ++ [.superStop] := by
+  unfold stop
+  rw [hd]
+  show (match eventPut cfg f log d with
+        | (log', FRes.keyError k) => (log', some k)
+        | (log', _) => (log' ++ [FEv.superStop], none)).1 = _
+  cases hr : eventPut cfg f log d with
+  | mk l res =>
+    cases res with
+    | keyError k => rw [hr] at hk; exact absurd rfl (hk k)
+    | _ => rfl
+
+/-- non-vacuity: an OutputFunc with the default f_args, two on_error destinations and stop_data -/
+example :
+    let cfg : FuncCfg := ⟨["value"], [], 1, 2, some [("value", Val.int 7)]⟩
+    let f : Func := fun args _ => if args == [Val.int 7] then .ok (Val.int 70) else .error 5
+    eventPut cfg f [] [("value", Val.int 3), ("source", Val.str "x")]
+      = ([.call [Val.int 3] [], .error 0 5, .error 1 5], .error 5) ∧
+    (stop cfg f []).1 = [.call [Val.int 7] [], .success 0 (Val.int 70), .superStop] := by
+  decide +kernel
 
 end Edzed.TrTie
 
